@@ -97,7 +97,8 @@ func buildResult(item *Item, offsets []Offset, score int) Result {
 				if criterion == byBegin {
 					val = util.AsUint16(minEnd - whitePrefixLen)
 				} else {
-					val = util.AsUint16(math.MaxUint16 - math.MaxUint16*(maxEnd-whitePrefixLen)/(int(item.TrimLength())+1))
+					// (computed in 64 bits; the product overflows a 32-bit int for long lines)
+					val = util.AsUint16(math.MaxUint16 - int(int64(math.MaxUint16)*int64(maxEnd-whitePrefixLen)/int64(int(item.TrimLength())+1)))
 				}
 			}
 		}
